@@ -117,6 +117,20 @@ CHECKS.update({
     ),
 })
 
+CHECKS.update({
+    'C09': dict(
+        script='checks/c09.py', category='model_checking', design='DESIGN.md §4 C09',
+        text=('All on the UBSan-trap IR (signed overflow, shift, division by zero, array bounds, null, unreachable) with the '
+              'bounds-checked byte memory model and unwinding assertions: (1) every public date/time factory and accessor with '
+              'every argument a solver variable over its whole type; (2) call histories as in C08 with below/above-range and '
+              'sentinel arguments, repeated; (3) for all 387 extended zones and every UTC year 1999..2050 (t symbolic in the '
+              'year) the transition high-water mark stays below the recorded buffer size and the pool size, and the basic '
+              'cache never drops a transition. A reachable trap / out-of-bounds access is a counterexample replayed on an '
+              'ASan+UBSan native build; documented range limits are listed as known findings.'),
+        technique='symbolic execution of UBSan-trap LLVM IR (llsym) with bounds-checked memory + SMT',
+    ),
+})
+
 NOT_APPLICABLE = {
     'C19': ('the generators are sampling loops around pytz/dateutil tzinfo objects backed by binary tz files and '
             'C-implemented datetime; neither CrossHair nor our symbolic executor can make those symbolic, and a '
